@@ -1,9 +1,15 @@
 package main
 
 import (
+	"fmt"
 	"go/ast"
 	"go/token"
+	"go/types"
 	"sort"
+	"strconv"
+	"strings"
+
+	"gtverif/internal/srcset"
 )
 
 // ---------------------------------------------------------------- package-level facts
@@ -18,6 +24,7 @@ type pkgInfo struct {
 	matcherVar   string
 	templatesVar string
 	templatesLen int
+	dups         []string // functions declared more than once in the file set
 }
 
 // methods the translator maps onto primitives instead of translating their bodies
@@ -91,6 +98,9 @@ func collectPkg(files []*ast.File) *pkgInfo {
 			case *ast.FuncDecl:
 				if d.Body != nil {
 					k := declKey(d)
+					if _, twice := p.decls[k]; twice && k != "init" {
+						p.dups = append(p.dups, "package: "+k+" is declared more than once in the files that take part in the build")
+					}
 					p.decls[k] = d
 					if d.Recv != nil {
 						p.methods[d.Name.Name] = append(p.methods[d.Name.Name], k)
@@ -543,4 +553,186 @@ func (a *analysis) solve() {
 			}
 		}
 	}
+}
+
+// ---------------------------------------------------------------- whole-package checks
+// What the translation assumes about the rest of the package, checked on the whole file set:
+//   - nobody but their declarations writes to (or takes the address of) the template list and the
+//     compiled pattern — an init() in a sibling file that appends a template or wraps the existing
+//     ones changes what FromBytes does without touching a translated function;
+//   - the struct types the translation reads fields of have exactly the fields and field types it
+//     assumes (Config.cached is *xsync.MapOf[cacheKey, any], ...);
+//   - the package names the translator maps onto primitives (xsync, yaml, os, strings, regexp, flag,
+//     reflect) are imported from the paths it assumes, in every file;
+//   - every Config literal starts with a fresh xsync map (the memo belongs to ONE Config).
+var expectedStructs = map[string][][2]string{
+	"Config":     {{"dimensions", "map[reflect.Type]genum.Enum"}, {"cached", "*xsync.MapOf[cacheKey, any]"}, {"data", "map[string]any"}},
+	"cacheKey":   {{"key", "string"}, {"typ", "reflect.Type"}},
+	"Builder":    {{"dimensions", "[]*dimension"}},
+	"dimension":  {{"defaultVal", "genum.Enum"}, {"flagName", "string"}, {"parseFlag", "bool"}, {"parsed", "genum.Enum"}},
+	"envVarTmpl": {},
+}
+
+var expectedImports = map[string]string{
+	"xsync": "github.com/puzpuzpuz/xsync/v3", "yaml": "gopkg.in/yaml.v3", "os": "os", "strings": "strings",
+	"regexp": "regexp", "flag": "flag", "reflect": "reflect", "genum": "github.com/drshriveer/gtools/genum",
+}
+
+func wholePackageChecks(sp *srcset.Pkg, p *pkgInfo, set string) []string {
+	var out []string
+	bad := func(format string, a ...any) { out = append(out, "package: "+fmt.Sprintf(format, a...)) }
+	for _, v := range []string{p.templatesVar, p.matcherVar} {
+		if v == "" {
+			continue
+		}
+		if w := sp.WritesTo(v); len(w) > 0 {
+			bad("%s is assigned to, or has its address taken, in %s", v, strings.Join(w, ", "))
+		}
+	}
+	if p.templatesVar == "" {
+		bad("the template list ([]templateVariable{&envVarTmpl{}}) is not declared as the translation assumes")
+	}
+	for name, want := range expectedStructs {
+		ts, err := sp.TypeSpec(name)
+		if err != nil {
+			bad("%v", err)
+			continue
+		}
+		st, ok := ts.Type.(*ast.StructType)
+		if !ok {
+			bad("type %s is not a struct", name)
+			continue
+		}
+		var got [][2]string
+		for _, f := range st.Fields.List {
+			t := types.ExprString(f.Type)
+			if len(f.Names) == 0 {
+				got = append(got, [2]string{"(embedded)", t})
+			}
+			for _, n := range f.Names {
+				got = append(got, [2]string{n.Name, t})
+			}
+		}
+		if fmt.Sprint(got) != fmt.Sprint(want) {
+			bad("type %s has fields %v, the translation assumes %v", name, got, want)
+		}
+	}
+	for i, f := range sp.Files {
+		for _, im := range f.Imports {
+			pth, _ := strconv.Unquote(im.Path.Value)
+			name := pth[strings.LastIndex(pth, "/")+1:]
+			if name == "v3" { // gopkg.in/yaml.v3 is package yaml, xsync/v3 is package xsync
+				parts := strings.Split(pth, "/")
+				name = strings.TrimSuffix(parts[len(parts)-2], ".v3")
+			}
+			name = strings.TrimSuffix(name, ".v3")
+			if im.Name != nil {
+				name = im.Name.Name
+			}
+			if want, ok := expectedImports[name]; ok && want != pth {
+				bad("%s: the name %s is imported from %s, the translation assumes %s", sp.Names[i], name, pth, want)
+			}
+		}
+		// every &Config{...} starts with a fresh memo
+		ast.Inspect(f, func(n ast.Node) bool {
+			cl, ok := n.(*ast.CompositeLit)
+			if !ok || ident(cl.Type) != "Config" {
+				return true
+			}
+			fresh := false
+			for _, e := range cl.Elts {
+				if kv, ok := e.(*ast.KeyValueExpr); ok && ident(kv.Key) == "cached" {
+					if c, ok := kv.Value.(*ast.CallExpr); ok && types.ExprString(c.Fun) == "xsync.NewMapOf[cacheKey, any]" && len(c.Args) == 0 {
+						fresh = true
+					}
+				}
+			}
+			if !fresh {
+				bad("%s: a Config is built without a fresh xsync.NewMapOf[cacheKey, any]() memo", sp.Names[i])
+			}
+			return true
+		})
+	}
+	// WithDimension appends to the registration list and does nothing else with it (the order of
+	// b.dimensions IS the registration order the model's `dims` stands for); FromFile hands the whole
+	// file to FromBytes
+	if fd := p.decls["Builder.WithDimension"]; fd != nil {
+		refs, appended := 0, false
+		ast.Inspect(fd.Body, func(n ast.Node) bool {
+			if sel, ok := n.(*ast.SelectorExpr); ok && sel.Sel.Name == "dimensions" {
+				refs++
+			}
+			if as, ok := n.(*ast.AssignStmt); ok && len(as.Lhs) == 1 && len(as.Rhs) == 1 &&
+				strings.HasSuffix(types.ExprString(as.Lhs[0]), ".dimensions") {
+				if c, ok := as.Rhs[0].(*ast.CallExpr); ok && ident(c.Fun) == "append" && len(c.Args) == 2 &&
+					types.ExprString(c.Args[0]) == types.ExprString(as.Lhs[0]) && ident(c.Args[1]) != "" {
+					appended = true
+				}
+			}
+			return true
+		})
+		if !appended || refs != 2 {
+			bad("Builder.WithDimension does not just append the new dimension to the registration list (%d uses of .dimensions)", refs)
+		}
+	} else {
+		bad("Builder.WithDimension not found")
+	}
+	for _, fn := range fieldWrites(sp, "dimensions") {
+		if !strings.HasSuffix(fn, ":WithDimension") {
+			bad("the field `dimensions` is assigned in %s", fn)
+		}
+	}
+	if fd := p.decls["Builder.FromFile"]; fd != nil {
+		okRead := false
+		ast.Inspect(fd.Body, func(n ast.Node) bool {
+			if c, ok := n.(*ast.CallExpr); ok && types.ExprString(c.Fun) == "io.ReadAll" && len(c.Args) == 1 && ident(c.Args[0]) != "" {
+				okRead = true
+			}
+			if c, ok := n.(*ast.CallExpr); ok {
+				if s := types.ExprString(c.Fun); strings.Contains(s, "Limit") || strings.Contains(s, "ReadFull") || strings.Contains(s, "CopyN") {
+					okRead = false
+					bad("Builder.FromFile reads through %s", s)
+				}
+			}
+			return true
+		})
+		if !okRead {
+			bad("Builder.FromFile does not read the whole file with io.ReadAll(<the opened file>)")
+		}
+	}
+	// the memo field is written nowhere but in such literals
+	for _, fn := range fieldWrites(sp, "cached") {
+		bad("the field `cached` is assigned in %s", fn)
+	}
+	return out
+}
+
+// functions that assign to a field of the given name (x.name = ..., x.name[...] = ...)
+func fieldWrites(sp *srcset.Pkg, field string) []string {
+	var out []string
+	for i, f := range sp.Files {
+		for _, d := range f.Decls {
+			fd, ok := d.(*ast.FuncDecl)
+			if !ok || fd.Body == nil {
+				continue
+			}
+			ast.Inspect(fd.Body, func(n ast.Node) bool {
+				as, ok := n.(*ast.AssignStmt)
+				if !ok {
+					return true
+				}
+				for _, l := range as.Lhs {
+					e := l
+					if ix, ok := e.(*ast.IndexExpr); ok {
+						e = ix.X
+					}
+					if sel, ok := e.(*ast.SelectorExpr); ok && sel.Sel.Name == field {
+						out = append(out, sp.Names[i]+":"+fd.Name.Name)
+					}
+				}
+				return true
+			})
+		}
+	}
+	return out
 }
